@@ -41,3 +41,18 @@ KERNEL int K(k_rsub_none_keep_ct)(SIG, OUTS){ MK; OBS_ANY(view::reduce(sub_t{}, 
 KERNEL int K(k_rsub_none_keep_rt)(SIG, int keepdims, OUTS){ MK; OBS_ANY(view::reduce(sub_t{}, a, nm::None, nm::None, nm::None, (bool)keepdims)); }
 // accumulate
 KERNEL int K(k_asub_axis)(SIG, int axis, OUTS){ MK; OBS_ANY(view::accumulate_subtract(a, axis)); }
+
+// explicitly named axes that reduce the array to a number (reduce_t::operator num_type, the scalar evaluation site), without / with initial
+KERNEL int K(k_rsub_axes3)(SIG, const int* axes, OUTS){ MK; OBS_ANY(view::reduce(sub_t{}, a, mk_arr<int,3>(axes))); }
+KERNEL int K(k_rsub_axes3_init)(SIG, const int* axes, unsigned init, OUTS){ MK; OBS_ANY(view::reduce(sub_t{}, a, mk_arr<int,3>(axes), nm::None, init)); }
+// result dtype: 8-bit source elements folded in a 32-bit accumulator (dtype = uint32); the fold must not be narrowed to the source type between steps
+using a3b_t = hyb_t<unsigned char,27,3>;
+#define SIGB const size_t* shape, const unsigned char* data
+#define MKB a3b_t a; if (!mk3(a,shape,data)) return -1
+KERNEL int K(k_radd_axis_dtype)(SIGB, int axis, OUTS){ MKB; OBS_ANY(view::reduce_add(a, axis, nm::uint32)); }
+KERNEL int K(k_radd_axis_dtype_init)(SIGB, int axis, unsigned init, OUTS){ MKB; OBS_ANY(view::reduce_add(a, axis, nm::uint32, init)); }
+KERNEL int K(k_radd_none_dtype)(SIGB, OUTS){ MKB; OBS_ANY(view::reduce_add(a, nm::None, nm::uint32)); }
+KERNEL int K(k_aadd_axis_dtype)(SIGB, int axis, OUTS){ MKB; OBS_ANY(view::accumulate_add(a, axis, nm::uint32)); }
+// narrowing dtype: 32-bit source elements, dtype = uint8: every partial result is an 8-bit value
+KERNEL int K(k_radd_axis_dtype8)(SIG, int axis, const size_t* idx, size_t nidx, size_t* oshape, size_t* odim, unsigned char* out){ MK; OBS_ANY(view::reduce_add(a, axis, nm::uint8)); }
+KERNEL int K(k_aadd_axis_dtype8)(SIG, int axis, const size_t* idx, size_t nidx, size_t* oshape, size_t* odim, unsigned char* out){ MK; OBS_ANY(view::accumulate_add(a, axis, nm::uint8)); }
